@@ -444,6 +444,46 @@ func (s *vfSwitch) deliverID(id int, keep bool) (delivered bool, err error) {
 	return true, nil
 }
 
+// handOver gives datagram id to the goroutine currently blocked in ReadFrom on the destination
+// socket and returns as soon as it was taken (no wait for a further ReadFrom): used for sockets
+// that read exactly once, like a STUN query during gathering.
+func (s *vfSwitch) handOver(id int, wait time.Duration) bool {
+	s.mu.Lock()
+	idx := -1
+	for i, d := range s.inflight {
+		if d.ID == id {
+			idx = i
+		}
+	}
+	if idx < 0 {
+		s.mu.Unlock()
+
+		return false
+	}
+	d := s.inflight[idx]
+	s.inflight = append(s.inflight[:idx], s.inflight[idx+1:]...)
+	var ep *vfConn
+	if dp, ok := s.priv(d.Dst); ok {
+		ep = s.eps[dp]
+	}
+	s.mu.Unlock()
+	if ep == nil {
+		return false
+	}
+	select {
+	case ep.inbox <- d:
+		s.mu.Lock()
+		s.delivered = append(s.delivered, vfDelivery{Dgram: d, To: ep.owner, Sock: ep.local, Step: s.step})
+		s.mu.Unlock()
+
+		return true
+	case <-ep.closed:
+		return false
+	case <-time.After(wait):
+		return false
+	}
+}
+
 func (s *vfSwitch) dropID(id int) bool {
 	s.mu.Lock()
 	defer s.mu.Unlock()
